@@ -185,6 +185,65 @@ func cmdCheck(args []string) int {
 			}
 		}
 	}
+	// translator validation: run sampled path witnesses natively
+	nwit, nwitOK := 0, 0
+	if !*noReplay {
+		rw, _ := prog.nativeRewrites()
+		for _, r := range results {
+			var files []string
+			var wits []*Witness
+			for i, wt := range r.Witnesses {
+				if wt == nil {
+					continue
+				}
+				v := &Violation{Harness: wt.Harness, Label: "witness", Kind: "witness", Model: wt.Model, UFs: wt.UFs}
+				f := writeReplay(id, *tier, v, 1000+i)
+				wt.File = f
+				files = append(files, f)
+				wits = append(wits, wt)
+			}
+			if len(files) == 0 {
+				continue
+			}
+			fn := prog.harnessFuncs[r.Name]
+			res, raw := runNativeBatch(prog.overlayFiles, rw, fn.Pkg.Pkg.Path(), fn.Pkg.Pkg.Name(), r.Name, files)
+			for _, wt := range wits {
+				nwit++
+				nr, ok := res[wt.File]
+				exp := fmt.Sprintf("%q", wt.Observed)
+				if len(wt.Observed) == 0 {
+					exp = "[]"
+				}
+				switch {
+				case !ok:
+					tail := raw
+					if len(tail) > 400 {
+						tail = tail[len(tail)-400:]
+					}
+					wt.Result = "native run failed: " + strings.ReplaceAll(tail, "\n", " | ")
+				case nr.Assume != "":
+					wt.Result = "native assumption failed: " + nr.Assume
+				case nr.Panicked:
+					wt.Result = "native run panicked: " + nr.PanicMsg
+				case nr.Failures != "[]":
+					wt.Result = "native assertion failed: " + nr.Failures
+				case strings.Contains(exp, "=?"):
+					wt.Result = "ok (some observations not comparable)"
+				case nr.Observed != exp:
+					wt.Result = "observations differ: engine " + exp + " native " + nr.Observed
+				default:
+					wt.Result = "ok"
+				}
+				if strings.HasPrefix(wt.Result, "ok") {
+					nwitOK++
+					os.Remove(wt.File)
+				} else {
+					inconcl = append(inconcl, fmt.Sprintf("%s: TRANSLATOR-MISMATCH on path witness %s: %s", r.Name, wt.File, wt.Result))
+				}
+			}
+		}
+	}
+	witnessStats = [2]int{nwit, nwitOK}
 	// replay violations
 	nviol := 0
 	var lines []string
@@ -229,6 +288,8 @@ func cmdCheck(args []string) int {
 	fmt.Printf("property %s tier=%s: %s (load %.1fs, total %.1fs)\n", id, *tier, map[int]string{0: "HOLDS within bounds", 1: "VIOLATED", 2: "INCONCLUSIVE"}[exit], loadT.Seconds(), time.Since(t0).Seconds())
 	return exit
 }
+
+var witnessStats [2]int
 
 func crossCheck(r *HarnessResult) {
 	type job struct {
@@ -278,17 +339,29 @@ func replayNative(prog *Program, v *Violation, file string) string {
 		return "not-reproduced: harness function not found"
 	}
 	rw, _ := prog.nativeRewrites()
-	return runNative(prog.overlayFiles, rw, fn.Pkg.Pkg.Path(), fn.Pkg.Pkg.Name(), v.Harness, v.Label, v.Kind, file)
+	res, raw := runNativeBatch(prog.overlayFiles, rw, fn.Pkg.Pkg.Path(), fn.Pkg.Pkg.Name(), v.Harness, []string{file})
+	r, ok := res[file]
+	return judgeNative(r, ok, raw, v.Label, v.Kind)
 }
 
-func runNative(overlayFiles map[string]string, rewrites map[string][]byte, pkgPath, pkgName, harness, label, kind, file string) string {
+type nativeResult struct {
+	Failures string
+	Panicked bool
+	Assume   string
+	Observed string
+	PanicMsg string
+}
+
+var resRe = regexp.MustCompile(`ZZVERIF-RESULT file="([^"]*)" failures=(\[.*?\]) panicked=(true|false) assume="(.*?)" observed=(\[.*\])`)
+var panRe = regexp.MustCompile(`ZZVERIF-PANIC file="([^"]*)" (.*)`)
+
+// runNativeBatch runs harness natively once per replay file (one go test run).
+func runNativeBatch(overlayFiles map[string]string, rewrites map[string][]byte, pkgPath, pkgName, harness string, files []string) (map[string]nativeResult, string) {
+	out := map[string]nativeResult{}
+	os.MkdirAll(filepath.Join(verifDir, ".work"), 0o755)
 	work, err := os.MkdirTemp(filepath.Join(verifDir, ".work"), "replay")
 	if err != nil {
-		os.MkdirAll(filepath.Join(verifDir, ".work"), 0o755)
-		work, err = os.MkdirTemp(filepath.Join(verifDir, ".work"), "replay")
-		if err != nil {
-			return "not-reproduced: " + err.Error()
-		}
+		return out, "cannot create work dir: " + err.Error()
 	}
 	defer os.RemoveAll(work)
 	rel := strings.TrimPrefix(pkgPath, repoMod+"/")
@@ -314,18 +387,15 @@ func runNative(overlayFiles map[string]string, rewrites map[string][]byte, pkgPa
 	testSrc := fmt.Sprintf(`package %s
 
 import (
-	"fmt"
+	"os"
+	"strings"
 	"testing"
 
 	zz "%s/pkg/zzverif"
 )
 
 func TestZZVerifReplay(t *testing.T) {
-	fails, pv, af := zz.Run(%s)
-	fmt.Printf("ZZVERIF-RESULT failures=%%q panicked=%%v assume=%%q\n", fails, pv != nil, af)
-	if pv != nil {
-		fmt.Printf("ZZVERIF-PANIC %%v\n", pv)
-	}
+	zz.RunFiles(%s, strings.Split(os.Getenv("VERIF_REPLAYS"), "\n"))
 }
 `, pkgName, repoMod, harness)
 	tf := filepath.Join(work, "zz_verif_replay_test.go")
@@ -334,25 +404,37 @@ func TestZZVerifReplay(t *testing.T) {
 	ovData, _ := json.Marshal(map[string]interface{}{"Replace": repl})
 	ovFile := filepath.Join(work, "overlay.json")
 	os.WriteFile(ovFile, ovData, 0o644)
-	cmd := exec.Command("go", "test", "-v", "-vet=off", "-count=1", "-overlay", ovFile, "-ldflags=-checklinkname=0", "-run", "^TestZZVerifReplay$", "-timeout", "120s", "./"+rel)
+	timeout := 120 + 20*len(files)
+	cmd := exec.Command("go", "test", "-v", "-vet=off", "-count=1", "-overlay", ovFile, "-ldflags=-checklinkname=0", "-run", "^TestZZVerifReplay$", "-timeout", fmt.Sprintf("%ds", timeout), "./"+rel)
 	cmd.Dir = repoDir
-	cmd.Env = append(os.Environ(), "GOFLAGS=-mod=mod", "GOPROXY=off", "GOSUMDB=off", "GOTOOLCHAIN=local", "VERIF_REPLAY="+file)
-	out, _ := cmd.CombinedOutput()
-	txt := string(out)
+	cmd.Env = append(os.Environ(), "GOFLAGS=-mod=mod", "GOPROXY=off", "GOSUMDB=off", "GOTOOLCHAIN=local", "VERIF_REPLAYS="+strings.Join(files, "\n"))
+	raw, _ := cmd.CombinedOutput()
+	txt := string(raw)
 	if os.Getenv("GOSYM_REPLAYLOG") != "" {
 		fmt.Println(txt)
 	}
-	m := regexp.MustCompile(`ZZVERIF-RESULT failures=(\[.*\]) panicked=(true|false) assume="(.*)"`).FindStringSubmatch(txt)
-	if m == nil {
+	for _, m := range resRe.FindAllStringSubmatch(txt, -1) {
+		out[m[1]] = nativeResult{Failures: m[2], Panicked: m[3] == "true", Assume: m[4], Observed: m[5]}
+	}
+	for _, m := range panRe.FindAllStringSubmatch(txt, -1) {
+		r := out[m[1]]
+		r.PanicMsg = m[2]
+		out[m[1]] = r
+	}
+	return out, txt
+}
+
+func judgeNative(r nativeResult, ok bool, txt, label, kind string) string {
+	if !ok {
 		if strings.Contains(txt, "panic: test timed out") {
 			if kind == "deadlock" {
 				return "reproduced (native run hung)"
 			}
 			return "not-reproduced: native run timed out"
 		}
-		if strings.Contains(txt, "fatal error:") {
+		if i := strings.Index(txt, "fatal error:"); i >= 0 {
 			if kind == "panic" || kind == "deadlock" {
-				return "reproduced (fatal error): " + firstLine(txt[strings.Index(txt, "fatal error:"):])
+				return "reproduced (fatal error): " + firstLine(txt[i:])
 			}
 		}
 		tail := txt
@@ -361,23 +443,18 @@ func TestZZVerifReplay(t *testing.T) {
 		}
 		return "not-reproduced: native replay did not run: " + strings.ReplaceAll(tail, "\n", " | ")
 	}
-	if m[3] != "" {
-		return "not-reproduced: native assumption failed: " + m[3]
+	if r.Assume != "" {
+		return "not-reproduced: native assumption failed: " + r.Assume
 	}
 	switch kind {
 	case "assert":
-		if strings.Contains(m[1], strconv.Quote(label)) {
+		if strings.Contains(r.Failures, strconv.Quote(label)) {
 			return "reproduced"
 		}
-		return "not-reproduced: assertion held natively (failures=" + m[1] + " panicked=" + m[2] + ")"
+		return fmt.Sprintf("not-reproduced: assertion held natively (failures=%s panicked=%v)", r.Failures, r.Panicked)
 	case "panic":
-		if m[2] == "true" {
-			pm := regexp.MustCompile(`ZZVERIF-PANIC (.*)`).FindStringSubmatch(txt)
-			s := ""
-			if pm != nil {
-				s = pm[1]
-			}
-			return "reproduced: " + s
+		if r.Panicked {
+			return "reproduced: " + r.PanicMsg
 		}
 		return "not-reproduced: no panic natively"
 	}
@@ -506,7 +583,9 @@ func writeEvidence(id, tier string, seed int, prog *Program, results []*HarnessR
 	sort.Strings(sl)
 	cov["states"] = states
 	cov["transitions"] = trans
-	cov["traces_validated_against_impl"] = traces
+	cov["traces_validated_against_impl"] = traces + witnessStats[1]
+	cov["path_witnesses_run_natively"] = witnessStats[0]
+	cov["path_witnesses_agreeing"] = witnessStats[1]
 	cov["samples"] = samples
 	cov["exhaustive"] = len(inconcl) == 0
 	cov["explanation"] = "states = symbolic paths of the real code completed (each covers all inputs satisfying its path condition); transitions = go/ssa instructions executed symbolically; traces_validated = solver models replayed against the natively compiled code"
